@@ -23,7 +23,8 @@ CfgOf(c) == [cd |-> c.cdt, wg |-> c.wgt, obeyset |-> {TRUE, FALSE},
              ws |-> [i \in 1..Len(c.ws) |->
                        [n |-> c.ws[i].n, ln |-> c.ws[i].ln, np |-> c.ws[i].np, G |-> c.ws[i].Gp, W |-> c.ws[i].Wt, sing |-> c.ws[i].sing,
                         resp |-> c.ws[i].resp, auto |-> c.ws[i].auto, prio |-> c.ws[i].prio, ssig |-> c.ws[i].ssig,
-                        sch |-> c.ws[i].sch, hup |-> c.ws[i].hup, hooks |-> c.ws[i].hooks, retry |-> c.ws[i].retry]]]
+                        sch |-> c.ws[i].sch, hup |-> c.ws[i].hup, hooks |-> c.ws[i].hooks, retry |-> c.ws[i].retry,
+                        ver |-> c.ws[i].ver]]]
 
 InitState(cfg) ==
   [cfg |-> cfg, now |-> 0, k |-> <<>>,
@@ -61,8 +62,33 @@ StateOK(t, ln) ==
      /\ \A p \in 1..NP(t) : o.k[p][2] = t.k[p].st /\ o.k[p][3] = t.k[p].ws /\ o.k[p][4] = t.k[p].par
 
 LineOK(t, ln) == /\ t.out.k = ln.k /\ t.out.p = ln.p /\ t.out.a = ln.a /\ t.out.r = ln.r /\ t.out.x = ln.x
-                 /\ (ln.k \in {"ev", "hook", "spawn", "reply"} => t.out.w = ln.w)
+                 /\ (ln.k \in {"ev", "hook", "spawn", "reply", "selw", "selc"} => t.out.w = ln.w)
                  /\ StateOK(t, ln)
+
+\* the order in which reload_from_config went through its three loops, read off the selw / selc lines that follow
+\* the request (while the slot is held by the reload): a name looked up (selw) and then looked up in the new file
+\* (selc) was in the maybe-changed loop; looked up only: deleted; only in the new file: added
+SelLines(from) ==
+  LET \* the reload is over at the first later line that shows the slot in other hands (or free)
+      R == { j \in (from + 1)..Len(Tr) : "s" \in DOMAIN Tr[j] /\ Tr[j].s.slot # "arbiter_reload_config" }
+      last == IF R = {} THEN Len(Tr) ELSE Min(R) - 1
+  IN SelectSeq([j \in 1..(last - from) |-> Tr[from + j]], LAMBDA x : x.k \in {"selw", "selc"})
+PlanOf(from) ==
+  LET sl == SelLines(from)
+      \* (the maybe-changed loop sees every name once, and first: a later selw of the same name is the delete loop,
+      \*  even when the add loop's selc of that name follows it at once because stopping it took no step)
+      isChgW(j) == /\ sl[j].k = "selw" /\ j < Len(sl) /\ sl[j + 1].k = "selc" /\ sl[j + 1].w = sl[j].w
+                   /\ \A i \in 1..(j - 1) : ~(sl[i].k = "selw" /\ sl[i].w = sl[j].w)
+      isChgC(j) == sl[j].k = "selc" /\ j > 1 /\ isChgW(j - 1)
+      names(P(_)) == LET ix == SelectSeq([j \in 1..Len(sl) |-> j], P) IN [j \in 1..Len(ix) |-> sl[ix[j]].w]
+  IN [chg |-> names(isChgW),
+      del |-> names(LAMBDA j : sl[j].k = "selw" /\ ~isChgW(j)),
+      add |-> names(LAMBDA j : sl[j].k = "selc" /\ ~isChgC(j))]
+FileOf(q) == [j \in 1..Len(q.file) |->
+                [n |-> q.file[j].n, ln |-> q.file[j].ln, np |-> q.file[j].np, ver |-> q.file[j].ver, G |-> q.file[j].Gp,
+                 W |-> q.file[j].Wt, sing |-> q.file[j].sing, prio |-> q.file[j].prio, auto |-> q.file[j].auto,
+                 resp |-> q.file[j].resp, ssig |-> q.file[j].ssig, sch |-> q.file[j].sch, hup |-> q.file[j].hup,
+                 retry |-> q.file[j].retry]]
 
 ReqOf(ln) == [cmd |-> ln.q.cmd, name |-> ln.q.name, lname |-> ln.q.lname, hasname |-> ln.q.hasname,
               mid |-> ln.q.mid, waiting |-> ln.q.waiting, cast |-> ln.q.cast, pid |-> ln.q.pid,
@@ -71,7 +97,8 @@ ReqOf(ln) == [cmd |-> ln.q.cmd, name |-> ln.q.name, lname |-> ln.q.lname, hasnam
               G |-> ln.q.Gp, nostop |-> ln.q.nostop, graceful |-> ln.q.graceful,
               sequential |-> ln.q.sequential, raw |-> ln.q.raw, start |-> ln.q.start, addnp |-> ln.q.addnp,
               addG |-> ln.q.addGp, addW |-> ln.q.addWt, addsing |-> ln.q.addsing, nopts |-> ln.q.nopts, pattern |-> ln.q.pattern,
-              opts |-> ln.q.opts, matches |-> ln.q.matches]
+              opts |-> ln.q.opts, matches |-> ln.q.matches, file |-> FileOf(ln.q),
+              plan |-> IF ln.q.cmd = "reloadconfig" THEN PlanOf(l + 1) ELSE [chg |-> <<>>, del |-> <<>>, add |-> <<>>]]
 
 Tk(ms) == (ms + 50) \div 100
 
